@@ -68,16 +68,18 @@ def _wire_numbers(wd) -> tuple:
     return tuple(sorted({v.number for v in wd.values}))
 
 
-def enum_pair_ok(model_enum: str, wire_enum: str, suppress: bool = True) -> bool:
-    """native confirmation (no solver, the real objects): numbers/names of the two enums agree."""
+def enum_pair_ok(model_enum: str, wire_enum: str, suppress: bool = True, flag: bool = False) -> bool:
+    """native confirmation (no solver, the real objects): numbers/names of the two enums agree.
+    flag=True: the model class is an IntFlag -- the wire's zero value has no member, there is no converter."""
     me = getattr(M, model_enum)
     wd = PB.DESCRIPTOR.enum_types_by_name[wire_enum]
-    wire = [(v.name, v.number) for v in wd.values]
+    allwire = [v.name for v in wd.values]
+    wire = [(v.name, v.number) for v in wd.values if not (flag and v.number == 0)]
     model = [(n, int(m.value)) for n, m in me.__members__.items()]
     ok = len({n for _, n in model}) == len(model) and len({n for _, n in wire}) == len(wire)
     if ok:
-        ok = any({(nm[len(p):], num) for nm, num in wire} == set(model) for p in S.prefixes_of([w for w, _ in wire]))
-    if ok:
+        ok = any({(nm[len(p):], num) for nm, num in wire} == set(model) for p in S.prefixes_of(allwire))
+    if ok and not flag:
         # and the converter really maps every wire number to the member of that number
         ok = all(me.convert(num) is not None and int(me.convert(num)) == num for _, num in wire)
     if not ok:
@@ -110,6 +112,14 @@ def smt_obligations(tier: str) -> list:
         pts = [tuple(p) for p in _known_entry(me).get("points", [])]
         ob = S.enum_obligation(me, wd, origin, pts)
         out.append(_confirm(ob, f"enum_pair_ok({me.__name__!r}, {wd.name!r}, False)"))
+    fpairs, unpaired_wire = S.flag_enum_pairs()
+    for me, wd, origin in fpairs:
+        pts = [tuple(p) for p in _known_entry(me).get("points", [])]
+        ob = S.enum_obligation(me, wd, origin, pts, flag=True)
+        out.append(_confirm(ob, f"enum_pair_ok({me.__name__!r}, {wd.name!r}, False, True)"))
+    if unpaired_wire:
+        out.append({"name": "enum/unpaired-wire", "status": "unknown", "seconds": 0, "queries": 0,
+                    "what": f"wire enums that no model enum is paired with: {unpaired_wire}"})
     if unpaired:
         out.append({"name": "enum/unpaired", "status": "unknown", "seconds": 0, "queries": 0,
                     "what": f"model enums without a wire counterpart found: {unpaired}"})
@@ -688,10 +698,11 @@ def shards(tier: str) -> list:
         out.append({"fn": "h14_enum_convert", "env": {"EIDX": i}, "cond_timeout": 120,
                     "desc": f"{me.__name__}.convert(n), n in [min-2, max+2] of wire enum {wd.name}"})
     names = [me.__name__ for me, _w, _o in _ENUM_PAIRS]
-    for nm in (("FanDirection", "ClimateSwingMode") if tier == "quick" else ("FanDirection", "ClimateSwingMode", "ClimateMode", "ClimatePreset")):
+    lists = [("FanDirection", 3), ("ClimateSwingMode", 3)] if tier == "quick" else [("FanDirection", 4), ("ClimateSwingMode", 4), ("ClimateMode", 3), ("ClimatePreset", 3)]
+    for nm, ll in lists:
         if nm in names:
-            out.append({"fn": "h14_convert_list", "env": {"EIDX": names.index(nm), "LLEN": 3 if tier == "quick" else 4}, "cond_timeout": 400,
-                        "desc": f"{nm}.convert_list on symbolic lists of length <= {3 if tier == 'quick' else 4}"})
+            out.append({"fn": "h14_convert_list", "env": {"EIDX": names.index(nm), "LLEN": ll}, "cond_timeout": 600,
+                        "desc": f"{nm}.convert_list on symbolic lists of length <= {ll}"})
     for i, (pb, md, _o) in enumerate(_E1):
         env = {"PAIR": i, "RMAX": 2 if tier == "quick" else 3, "LMAX": 2 if tier == "quick" else 3}
         desc = f"{md.__name__}.from_pb({pb.__name__} double) + to_dict/from_dict round trip"
@@ -712,7 +723,7 @@ _UNSUPPORTED = sorted({md.__name__ for pb, md, _o in S.message_pairs() if not _s
 BOUNDS = {
     "quick": {
         "E2 schema": "all paired enums (converter fields <-> descriptor enum_type, APIClient command/enum parameters <-> request fields, same-name "
-                     "rest) and all (message, model) pairs of SUBSCRIBE_STATES_RESPONSE_TYPES, LIST_ENTITIES_SERVICES_RESPONSE_TYPES and the "
+                     "rest, listed flag enums; an unpaired model enum or wire enum makes the check inconclusive) and all (message, model) pairs of SUBSCRIBE_STATES_RESPONSE_TYPES, LIST_ENTITIES_SERVICES_RESPONSE_TYPES and the "
                      "from_pb call sites (DeviceInfo, UserService, UserServiceArg, HomeassistantServiceCall, Bluetooth*, VoiceAssistant*, "
                      "MediaPlayerSupportedFormat); api.proto text vs descriptors for all enums; exact (finite relations, no bound)",
         "from_pb": "per pair: all bool/int/str(len<=2)/bytes(len<=2)/plain-float(any double) fields symbolic TOGETHER; one aspect varied at a time: "
@@ -724,7 +735,7 @@ BOUNDS = {
         "fix_float": "v any double that is 0/-0/inf/-inf/NaN: returned unchanged; v any other double with 1e-46 < |v| <= 1e39 (85 decades, covers every "
                      "finite non-zero float32): digits argument of round == 7 - d, round gets the signed v, its result is returned",
     },
-    "thorough": {"as quick, plus": "repeated enum lists of length <= 3, repeated/map/nested fields of 0..3 elements, convert_list length <= 4 on four enums"},
+    "thorough": {"as quick, plus": "repeated enum lists of length <= 3, repeated/map/nested fields of 0..3 elements, convert_list length <= 4 (FanDirection, ClimateSwingMode) and <= 3 (ClimateMode, ClimatePreset)"},
 }
 OUTSIDE = [
     "that libm log10 and CPython round(x, n) honour the contract stubs on every float32 bit pattern (C code, transcendental): "
@@ -742,7 +753,8 @@ ASSUMPTIONS = [
     "vf/symtypes.py: IeeeFloat = one z3 Float64 per float; sym_ceil = round-toward-+inf encoding of math.ceil for a finite symbolic float",
     "h14_fix_digits replaces util.math.log10 by a contract stub (returns ANY value lg with d-1 < lg <= d) and builtin round (as seen from util.py) by a recorder",
     "reference for the rounded-float fields: float(format(v, '.7g')) (correctly rounded 7 significant decimal digits)",
-    "known findings C14/enum-mismatch/LockState and C14/enum-mismatch/UpdateCommand: exactly the listed points/numbers are excluded, everything else about those enums is still checked",
+    "flag enums (enum.IntFlag paired with a wire enum that declares the bits of a uint32 flags field: VoiceAssistantSubscriptionFlag): every member <-> every NON-ZERO wire value, same name rule; no converter exists for them",
+    "known findings C14/enum-mismatch/<Enum> (see known_findings.json: UpdateCommand name-only, VoiceAssistantSubscriptionFlag.API_AUDIO): exactly the listed (number, name) points / numbers are excluded from the queries and oracles, everything else about those enums is still checked",
 ]
 EXPLANATION = ("C14: E2 = z3 finds no (number, name) / field name present on one side only and no alias; E1 = Model.from_pb on doubles never raises, "
                "every field equals its input (unknown enum number -> None / dropped in order, rounded floats == 7-significant-digit reference), "
